@@ -5,6 +5,29 @@ props = [json.loads(l) for l in open(os.path.join(VERIF, "properties.jsonl"))]
 ids = [p["id"] for p in props]
 
 CHECKS = {
+ "C07": dict(
+   text="PARTIAL proof + full-state correspondence. Proved for every state of every history (props/C07.v, closed): solve is a query on "
+        "the wiring state; an accepted connect is recorded and recognised; rejected cut/remove change nothing; the matrix of the circuit a "
+        "state denotes is the exact solution of its network equations however that circuit was declared (C01/C03 theorems), so a state "
+        "and a freshly built solver denoting the same circuit solve alike. NOT yet proved: the invariant that all tables (solver-level and "
+        "per-structure) denote the same circuit after every operation; that part is tied by the correspondence: random histories over "
+        "{add, re-add after cut/remove, connect, cut, remove, map, raise-all, solve} are replayed on /repo and after EVERY call the "
+        "observable state (structures, connections, pins reported free, exposed pins, ok/error) is compared with the model "
+        "Wiring.v, and at every solve the matrix with the model's exact solve of the remaining circuit (incl. dead ports left by remove).",
+   note="Trusted: Coq kernel + vm_compute; Bignums primitives for the executed instance; model Wiring.v tied by sampled correspondence; harness. "
+        "The model follows the fixed code (F08, F09, F10 in known_findings.json).",
+   technique="Coq theorems on the step function (partial) + vm_compute state-by-state correspondence of edit histories", design="§5 C07, §8"),
+ "C16": dict(
+   text="Proof (props/C16.v, closed): in every state a connected pin is refused for any other partner in either argument position and the "
+        "state is untouched; repeating a connect in either orientation is a no-op; adding a present structure is refused with the state "
+        "untouched; every validation failure of connect leaves the state untouched (PARTIAL: the case 'validation passed but a stale "
+        "per-structure table refuses the link' is excluded by table consistency, which is tied by correspondence, not proved); two distinct "
+        "pins with the same printable name make the name table refuse (for all pin lists); an accepted table resolves every name to exactly "
+        "its pin and nothing else; renamed pins are addressable by the new names. The tie replays histories with 30 % invalid calls by Pin "
+        "object and by name on /repo, comparing ok/error and the observable state after every call and the final solve, and random pin-name "
+        "tables with renamings (swaps, chains, collisions) through Model.pin / Structure.pin.",
+   note="Trusted: Coq kernel + vm_compute; models Wiring.v/Names.v tied by sampled correspondence; harness. Follows the fixed code (F01, F10, F11, F26).",
+   technique="Coq theorems on the step function and on name tables + vm_compute correspondence of histories with invalid calls", design="§5 C16, §8"),
  "C20": dict(
    text="PARTIAL by nature. Proved (props/C20.v, all sizes, closed under the global context): a successful solve of n components "
         "performs exactly n-1 merges; a cascade of any number of reflection-free two-ports solves to the product of the transmissions "
